@@ -42,6 +42,8 @@ def fam(style, shape, cls):
         return "Root cause: continuing a raw string the user opened, control characters are written as \\n / \\t escapes, which a raw string does not interpret."
     if "tilde" in parts and st.startswith("pr-"):
         return "Root cause: the completer treats every r-prefixed string as tilde-literal, but xonsh path strings (pr'...') expand '~'."
+    if parts == ["tilde"] and st in ("tsq", "p-sq"):
+        return "Root cause: the literal-'~' special case in _complete_path_raw strips one quote character per side when it looks for the candidate '~', so inside \'\'\' / p' the plain-quoted completion survives and xonsh expands it to $HOME."
     if "tilde" in parts and "eq" in parts:
         return "Root cause: xonsh expands '~' next to '=' (option=~ handling) in bare words and non-raw strings; the completer does not use a raw string for such names."
     if parts[0] == "eq" and st == "bare":
@@ -88,6 +90,22 @@ def main(dirs):
             else:
                 unknown.append(k)
                 continue
+        elif c["part"] == "roundtrip-dir":
+            o = r["observed"]
+            d = c["dir"]
+            if "bang" in k:
+                why = "'!' is missing from the needs-quoting pattern (same root cause as for a last component containing '!'); here it sits in a parent directory the completer expanded itself"
+            elif ":eq." in k:
+                why = "a word starting with '=' is inserted bare and the line is parsed as a Python assignment (same root cause as for a last component starting with '=')"
+            elif ".sp/" in k:
+                why = "path._normpath() strips blanks at the end of a component (same root cause as for a name ending in a blank); the subsequence match loses the rest of the path"
+            else:
+                why = None
+            if why is None:
+                unknown.append(k)
+                continue
+            what = (f"directory {d!r} holding {c['file']!r}, line {c['line']!r} (route: {c['route']} - the completer expands the parent itself): completion {o['completion']!r} gives "
+                    f"{o['spliced_line']!r}, which runs as {o['argv_calls']!r} instead of one argument naming <CWD>/{d}/{c['file']}. Root cause: {why}.")
         elif c["part"] == "roundtrip-multi":
             o = r["observed"]
             what = (f"directory with {c['names']!r}, line {c['line']!r} with the cursor at {c['cursor']}, candidates visited in the order {c['order']!r}: completion {o['completion']!r} gives "
@@ -100,7 +118,9 @@ def main(dirs):
                 continue
             o = r["observed"]
             what = (f"{c['kind']} named {c['name']!r}, line {c['line']!r} with the cursor at {c['cursor']}: completion {o['completion']!r} gives {o['spliced_line']!r}, "
-                    f"which runs as {o['argv_calls']!r} instead of [[{c['name']!r}]]. {f}")
+                    f"which runs as {o['argv_calls']!r} instead of [[{c['name']!r}]]. {f}"
+                    + (" (Typed situation: the cursor sits right after an already closed quoted word, e.g. the empty literal; the open-quote form of the same input is not offered a completion.)"
+                       if "cursor-after-closed-quote" in style else ""))
             what = re.sub(r"/dev/shm/xverif\.\d+/c18\.\d+\.\d+/home", "$HOME", what)
         out.append({"status": "open", "property": "C18", "key": k, "what": what})
     os.makedirs(os.path.join(VERIF, "findings_proposed"), exist_ok=True)
